@@ -306,3 +306,30 @@ CONTRACTS.update({
         'ensures': ['card2(result.edgeset) == m', 'result.lorder == L', 'result.rorder == R'] + [c.replace('self.', 'result.') for c in B_INV],
     },
 })
+
+
+def _edges_from(model, inv, valid, fields):
+    """BaseGraph.add_edges_from on the given graph model: a loop of add_edge calls"""
+    V = valid.format(a='edges[j][0]', b='edges[j][1]')
+    return {
+        'property': ['C16'],
+        'source': (G, 'BaseGraph.add_edges_from'),
+        'params': {'self': 'obj:' + model, 'edges': 'pairlist'},
+        'raises': {'ValueError': 'not forall(lambda j: implies(0 <= j and j < len(edges), {}))'.format(V)},
+        'ensures_on_raise': inv,
+        'loops': {0: {'ghost_at_entry': {'E0': 'self.edgeset'},
+                      'inv': ['forall(lambda x, y: implies((x, y) in E0, (x, y) in self.edgeset))',
+                              'forall(lambda j: implies(0 <= j and j < _it, (edges[j][0], edges[j][1]) in self.edgeset), lambda j: edges[j][0])',
+                              'forall(lambda j: implies(0 <= j and j < _it, {}))'.format(V)] + inv,
+                      'modifies_objects': ['self'], 'modifies_fields': {'self': fields}}},
+        'ensures': ['forall(lambda x, y: implies((x, y) in old(self.edgeset), (x, y) in self.edgeset))',
+                    'forall(lambda j: implies(0 <= j and j < len(edges), (edges[j][0], edges[j][1]) in self.edgeset), lambda j: edges[j][0])'] + inv,
+    }
+
+
+CONTRACTS[(G, 'DirectedGraphRep.add_edges_from')] = _edges_from(
+    'DirectedGraphRep', D_INV, '1 <= {a} and {a} <= self.n and 1 <= {b} and {b} <= self.n',
+    ['pred', 'succ', 'edgeset', 'm', 'idxp', 'idxs', 'still_a_dag'])
+CONTRACTS[(G, 'BipartiteGraphRep.add_edges_from')] = _edges_from(
+    'BipartiteGraphRep', B_INV, '1 <= {a} and {a} <= self.lorder and 1 <= {b} and {b} <= self.rorder',
+    ['ladj', 'radj', 'edgeset', 'idxl', 'idxr'])
